@@ -125,3 +125,845 @@ Proof.
   - apply time_feasible_drop; assumption.
   - apply load_feasible_drop; assumption.
 Qed.
+
+Lemma balanced_b_iff : forall j t o, balanced_b j o t = true <-> balanced j o t.
+Proof.
+  intros j t; induction t as [|a r IH]; intros o; cbn [balanced_b balanced]; [tauto|].
+  destruct (a_job a =? j); [|apply IH].
+  cbv zeta. rewrite !andb_true_iff, IH, !Z.leb_le. tauto.
+Qed.
+
+(* ================= part 2: the executable checker decides the invariant ================= *)
+Lemma memz_In : forall j l, memz j l = true <-> In j l.
+Proof.
+  intros j l. unfold memz. rewrite existsb_exists. split.
+  - intros (x & Hx & E). apply Z.eqb_eq in E. subst. exact Hx.
+  - intros H. exists j. split; [exact H|apply Z.eqb_refl].
+Qed.
+Lemma memz_false : forall j l, memz j l = false <-> ~ In j l.
+Proof. intros j l. pose proof (memz_In j l) as H. destruct (memz j l); split; intros; try congruence; intuition congruence. Qed.
+Lemma nodupb_NoDup : forall l, nodupb l = true <-> NoDup l.
+Proof.
+  induction l as [|x l IH]; cbn [nodupb].
+  - split; [intros; constructor|reflexivity].
+  - rewrite andb_true_iff, negb_true_iff, memz_false, IH. split.
+    + intros [H1 H2]. constructor; assumption.
+    + intros H. inversion H; subst. split; assumption.
+Qed.
+Lemma app_nil_iff : forall A (a b : list A), a ++ b = [] <-> a = [] /\ b = [].
+Proof. intros A a b. split; [apply app_eq_nil|intros [-> ->]; reflexivity]. Qed.
+Lemma flag_nil : forall b v, flag b v = [] <-> b = true.
+Proof. intros [] v; cbn; split; congruence. Qed.
+Lemma flat_map_nil : forall A B (f : A -> list B) l, flat_map f l = [] <-> forall x, In x l -> f x = [].
+Proof.
+  intros A B f l; induction l as [|x l IH]; cbn [flat_map].
+  - split; [intros _ x []|reflexivity].
+  - rewrite app_nil_iff, IH. split.
+    + intros [H1 H2] y [<-|Hy]; [exact H1|apply H2; exact Hy].
+    + intros H. split; [apply H; left; reflexivity|intros y Hy; apply H; right; exact Hy].
+Qed.
+Lemma report_nil : forall A (ok : A -> bool) v l, report ok v l = [] <-> forall x, In x l -> ok x = true.
+Proof.
+  intros A ok v l. unfold report. rewrite flat_map_nil. split; intros H x Hx; specialize (H x Hx).
+  - destruct (ok x); [reflexivity|discriminate].
+  - rewrite H. reflexivity.
+Qed.
+
+Lemma avail_ok_iff : forall d a, avail_ok d a = true <-> (In a (d_avail d) <-> ~ In a (used d)).
+Proof.
+  intros d a. unfold avail_ok. rewrite Bool.eqb_true_iff.
+  pose proof (memz_In a (d_avail d)) as A. pose proof (memz_In a (used d)) as B.
+  destruct (memz a (d_avail d)), (memz a (used d)); cbn; intuition congruence.
+Qed.
+
+Lemma route_viol_nil : forall P r, route_viol P r = [] <-> RouteOK0 P r.
+Proof.
+  intros P r. unfold route_viol, RouteOK0. destruct (find_vs P (r_actor r)) as [vs|] eqn:E.
+  - unfold route0_viol. rewrite !app_nil_iff, !flag_nil, report_nil. split.
+    + intros (H1 & H2 & H3 & H4 & H5 & H6). exists vs. split; [reflexivity|]. split; [exact H1|].
+      split; [unfold feasible; rewrite H2, H3; reflexivity|]. split; [exact H4|]. split; [exact H5|exact H6].
+    + intros (vs' & Evs & H1 & H2 & H3 & H4 & H5). inversion Evs; subst vs'.
+      unfold feasible in H2. apply andb_true_iff in H2 as [H2a H2b]. repeat split; assumption.
+  - split; [discriminate|intros (vs & Evs & _); discriminate].
+Qed.
+
+Theorem inv0_viol_nil : forall P d, inv0_viol P d = [] <-> Inv0 P d.
+Proof.
+  intros P d. unfold inv0_viol.
+  rewrite !app_nil_iff, !report_nil, !flag_nil, flat_map_nil, !andb_true_iff, !nodupb_NoDup, forallb_forall.
+  split.
+  - intros (H1 & H2 & ((H3a & H3b) & H3c) & (H4a & H4b) & H5 & H6 & H7 & H8). constructor.
+    + intros s Hs. apply Nat.eqb_eq. apply H1. exact Hs.
+    + exact H2.
+    + auto.
+    + auto.
+    + intros v Hv. apply avail_ok_iff. apply H5. apply in_map. exact Hv.
+    + intros r Hr. apply route_viol_nil. apply H6. exact Hr.
+    + exact H7.
+    + exact H8.
+  - intros [H1 H2 (H3a & H3b & H3c) (H4a & H4b) H5 H6 H7 H8].
+    split; [intros s Hs; apply Nat.eqb_eq; apply H1; exact Hs|].
+    split; [exact H2|]. split; [auto|]. split; [auto|].
+    split; [intros a Ha; apply in_map_iff in Ha as (v & <- & Hv); apply avail_ok_iff; apply H5; exact Hv|].
+    split; [intros r Hr; apply route_viol_nil; apply H6; exact Hr|]. split; [exact H7|exact H8].
+Qed.
+
+Theorem inv_b_nil : forall P d, inv_b P d = [] <-> Inv P d.
+Proof.
+  intros P d. unfold inv_b, Inv. rewrite app_nil_iff, inv0_viol_nil. unfold empty_viol, NoEmptyRoutes. rewrite report_nil.
+  split; intros [H1 H2]; (split; [exact H1|]); intros r Hr; specialize (H2 r Hr); unfold nonempty in *;
+    destruct (job_ids r); congruence.
+Qed.
+
+Theorem inv0_b_spec : forall P d, inv0_b P d = true <-> Inv0 P d.
+Proof. intros P d. unfold inv0_b. rewrite <- inv0_viol_nil. destruct (inv0_viol P d); split; congruence. Qed.
+
+Lemma route_ok_spec : forall P r, route_ok P r = true <-> RouteOK0 P r.
+Proof. intros P r. unfold route_ok. rewrite <- route_viol_nil. destruct (route_viol P r); split; congruence. Qed.
+
+(* ================= part 3: the primitives keep the invariant ================= *)
+(* ---------------- lists ---------------- *)
+Lemma map_fst_filter : forall (p : act -> bool) (l : list ract),
+  map fst (filter (fun x => p (fst x)) l) = filter p (map fst l).
+Proof. induction l as [|x l IH]; cbn; [reflexivity|]. destruct (p (fst x)); cbn; rewrite IH; reflexivity. Qed.
+
+Lemma map_filter_job : forall j (t : list act),
+  map a_job (filter (fun a => negb (a_job a =? j)) t) = removez j (map a_job t).
+Proof. induction t as [|a t IH]; cbn; [reflexivity|]. destruct (a_job a =? j); cbn; rewrite IH; reflexivity. Qed.
+
+Lemma filter_comm : forall A (p q : A -> bool) l, filter p (filter q l) = filter q (filter p l).
+Proof.
+  induction l as [|a l IH]; cbn; [reflexivity|].
+  destruct (p a) eqn:Ep, (q a) eqn:Eq; cbn; rewrite ?Ep, ?Eq, IH; reflexivity.
+Qed.
+
+Lemma filter_filter_sub : forall A (p q : A -> bool) l,
+  (forall x, p x = true -> q x = true) -> filter p (filter q l) = filter p l.
+Proof.
+  intros A p q l H; induction l as [|a l IH]; cbn; [reflexivity|].
+  destruct (q a) eqn:Eq; cbn.
+  - destruct (p a); rewrite IH; reflexivity.
+  - destruct (p a) eqn:Ep; [rewrite (H a Ep) in Eq; discriminate|exact IH].
+Qed.
+
+Lemma filter_rev : forall A (p : A -> bool) l, filter p (rev l) = rev (filter p l).
+Proof.
+  induction l as [|a l IH]; cbn; [reflexivity|]. rewrite filter_app, IH. cbn.
+  destruct (p a); cbn; [reflexivity|rewrite app_nil_r; reflexivity].
+Qed.
+
+Lemma forallb_filter : forall A (p q : A -> bool) l, forallb p l = true -> forallb p (filter q l) = true.
+Proof.
+  intros A p q l H. rewrite forallb_forall in *. intros x Hx. apply filter_In in Hx as [Hx _]. apply H. exact Hx.
+Qed.
+
+Lemma In_removez : forall k j l, In k (removez j l) <-> In k l /\ k <> j.
+Proof. intros. unfold removez. rewrite filter_In, negb_true_iff, Z.eqb_neq. tauto. Qed.
+
+Lemma b2n_memz_ext : forall k l1 l2, (In k l1 <-> In k l2) -> b2n (memz k l1) = b2n (memz k l2).
+Proof.
+  intros k l1 l2 H. destruct (memz k l1) eqn:E1, (memz k l2) eqn:E2; try reflexivity; exfalso.
+  - apply memz_In in E1. apply H in E1. apply memz_In in E1. congruence.
+  - apply memz_In in E2. apply H in E2. apply memz_In in E2. congruence.
+Qed.
+
+Lemma b2n_memz_In : forall k l, In k l -> b2n (memz k l) = 1%nat.
+Proof. intros k l H. apply memz_In in H. rewrite H. reflexivity. Qed.
+Lemma b2n_memz_notin : forall k l, ~ In k l -> b2n (memz k l) = 0%nat.
+Proof. intros k l H. apply memz_false in H. rewrite H. reflexivity. Qed.
+
+(* ---------------- one tour ---------------- *)
+Lemma tour_of_remove : forall a j acts, tour_of (mkRoute a (remove_job_acts j acts)) = drop_job j (map fst acts).
+Proof.
+  intros. unfold tour_of, remove_job_acts, drop_job. cbn [r_acts].
+  apply (map_fst_filter (fun x => negb (a_job x =? j))).
+Qed.
+
+Lemma job_ids_remove : forall a j r, job_ids (mkRoute a (remove_job_acts j (r_acts r))) = removez j (job_ids r).
+Proof.
+  intros. unfold job_ids. rewrite tour_of_remove. unfold drop_job. fold (tour_of r).
+  rewrite map_filter_job. unfold removez. apply filter_comm.
+Qed.
+
+Lemma job_ids_nonneg : forall r j, In j (job_ids r) -> 0 <= j.
+Proof. intros r j H. unfold job_ids in H. apply filter_In in H as [_ H]. lia. Qed.
+
+Lemma serves_In : forall r j, serves r j = true <-> In j (job_ids r).
+Proof. intros. apply memz_In. Qed.
+
+Lemma shape_drop : forall vs j t, 0 <= j -> shape_ok vs t = true -> shape_ok vs (drop_job j t) = true.
+Proof.
+  intros vs j t Hj H. destruct t as [|s r]; [discriminate|]. cbn [shape_ok] in H.
+  apply andb_true_iff in H as [Hs Hr].
+  assert (Es : a_job s =? j = false).
+  { unfold is_start in Hs. repeat (apply andb_true_iff in Hs as [Hs ?]). apply Z.eqb_eq in Hs. apply Z.eqb_neq. lia. }
+  unfold drop_job. cbn [filter]. rewrite Es. cbn [negb shape_ok]. rewrite Hs. cbn [andb].
+  destruct (vs_end vs) as [e|].
+  - rewrite <- filter_rev. revert Hr. destruct (rev r) as [|l m]; intros Hr; [discriminate|].
+    apply andb_true_iff in Hr as [Hl Hm]. cbn [filter].
+    assert (El : a_job l =? j = false).
+    { unfold is_end in Hl. repeat (apply andb_true_iff in Hl as [Hl ?]). apply Z.eqb_eq in Hl. apply Z.eqb_neq. lia. }
+    rewrite El. cbn [negb]. rewrite Hl. cbn [andb]. unfold all_jobs in *. apply forallb_filter. exact Hm.
+  - unfold all_jobs in *. apply forallb_filter. exact Hr.
+Qed.
+
+Lemma balanced_b_drop : forall k j t o, k <> j -> balanced_b k o (drop_job j t) = balanced_b k o t.
+Proof.
+  intros k j t; induction t as [|a r IH]; intros o Hk; [reflexivity|].
+  unfold drop_job. cbn [filter]. fold (drop_job j r).
+  destruct (a_job a =? j) eqn:Ej; cbn [negb balanced_b].
+  - apply Z.eqb_eq in Ej. destruct (a_job a =? k) eqn:Ek; [apply Z.eqb_eq in Ek; congruence|]. apply IH. exact Hk.
+  - destruct (a_job a =? k); [cbv zeta; rewrite IH by exact Hk; reflexivity|apply IH; exact Hk].
+Qed.
+
+Definition alleq (l : list Z) : bool := match l with [] => true | c :: r => forallb (Z.eqb c) r end.
+Lemma alleq_spec : forall l, alleq l = true <-> forall x y, In x l -> In y l -> x = y.
+Proof.
+  intros [|c r]; cbn [alleq].
+  - split; [intros _ x y []|reflexivity].
+  - rewrite forallb_forall. split.
+    + intros H x y Hx Hy.
+      assert (E : forall z, In z (c :: r) -> z = c).
+      { intros z [<-|Hz]; [reflexivity|]. symmetry. apply Z.eqb_eq. apply H. exact Hz. }
+      rewrite (E x Hx), (E y Hy). reflexivity.
+    + intros H x Hx. apply Z.eqb_eq. apply H; [left; reflexivity|right; exact Hx].
+Qed.
+Lemma alleq_incl : forall l l', alleq l = true -> incl l' l -> alleq l' = true.
+Proof. intros l l' H Hi. rewrite alleq_spec in *. intros x y Hx Hy. apply H; apply Hi; assumption. Qed.
+
+Lemma compat_ok_alleq : forall P r, compat_ok P r = alleq (compats P r).
+Proof. reflexivity. Qed.
+
+Lemma compats_incl : forall P r r', incl (job_ids r') (job_ids r) -> incl (compats P r') (compats P r).
+Proof.
+  intros P r r' H c Hc. unfold compats in *. apply filter_In in Hc as [Hc Hn]. apply filter_In. split; [|exact Hn].
+  apply in_map_iff in Hc as (j & <- & Hj). apply in_map. apply H. exact Hj.
+Qed.
+
+Lemma subs_of_remove : forall a j r k, k <> j -> subs_of (mkRoute a (remove_job_acts j (r_acts r))) k = subs_of r k.
+Proof.
+  intros a j r k Hk. unfold subs_of, remove_job_acts. cbn [r_acts]. f_equal.
+  apply filter_filter_sub. intros x Hx. apply Z.eqb_eq in Hx. apply negb_true_iff. apply Z.eqb_neq. lia.
+Qed.
+
+(* removing a job keeps a tour acceptable - time windows under the triangle inequality *)
+Lemma routeok_remove : forall P r j,
+  triangle (pdur P) -> RouteOK0 P r -> In j (job_ids r) ->
+  RouteOK0 P (mkRoute (r_actor r) (remove_job_acts j (r_acts r))).
+Proof.
+  intros P r j Htri (vs & Evs & Hsh & Hf & Hm & Hd & Hc) Hj.
+  pose proof (job_ids_nonneg r j Hj) as Hj0.
+  exists vs. cbn [r_actor]. split; [exact Evs|].
+  assert (Ein : forall k, In k (job_ids (mkRoute (r_actor r) (remove_job_acts j (r_acts r)))) -> In k (job_ids r) /\ k <> j).
+  { intros k Hk. rewrite job_ids_remove in Hk. apply In_removez. exact Hk. }
+  unfold demand_ok in Hd. apply andb_true_iff in Hd as [Hbal Hsvc]. rewrite forallb_forall in Hbal.
+  rewrite tour_of_remove. fold (tour_of r).
+  split; [apply shape_drop; assumption|].
+  split.
+  - revert Hsh Hf Hsvc Hbal. destruct (tour_of r) as [|s rest]; intros Hsh Hf Hsvc Hbal; [cbn in Hsh; discriminate|].
+    apply removal_feasible_metric; try assumption.
+    + cbn [shape_ok] in Hsh. apply andb_true_iff in Hsh as [Hs _]. unfold is_start in Hs.
+      repeat (apply andb_true_iff in Hs as [Hs ?]). apply Z.eqb_eq in Hs. lia.
+    + cbn [forallb] in Hsvc. apply andb_true_iff in Hsvc as [_ Hsvc]. rewrite forallb_forall in Hsvc.
+      apply Forall_forall. intros a Ha _. specialize (Hsvc a Ha). lia.
+    + apply balanced_b_iff. apply Hbal. exact Hj.
+  - split; [|split].
+    + intros k Hk. destruct (Ein k Hk) as [Hk1 Hk2]. unfold multi_ok in *. specialize (Hm k Hk1).
+      destruct (find_job P k); [|discriminate]. rewrite subs_of_remove by exact Hk2. exact Hm.
+    + unfold demand_ok. rewrite tour_of_remove. fold (tour_of r). apply andb_true_iff. split.
+      * apply forallb_forall. intros k Hk. destruct (Ein k Hk) as [Hk1 Hk2].
+        rewrite balanced_b_drop by exact Hk2. apply Hbal. exact Hk1.
+      * apply forallb_filter. exact Hsvc.
+    + rewrite compat_ok_alleq in *. apply (alleq_incl (compats P r)); [exact Hc|].
+      apply compats_incl. intros k Hk. apply Ein. exact Hk.
+Qed.
+
+(* ---------------- the tours of a solution ---------------- *)
+Lemma find_route_In : forall d a r, find_route d a = Some r -> In r (d_routes d) /\ r_actor r = a.
+Proof. intros d a r H. unfold find_route in H. apply find_some in H as [H1 H2]. apply Z.eqb_eq in H2. auto. Qed.
+
+Lemma find_route_none : forall d a, find_route d a = None -> ~ In a (used d).
+Proof.
+  intros d a H Hin. unfold used in Hin. apply in_map_iff in Hin as (x & Ex & Hx).
+  unfold find_route in H. apply (find_none _ _ H) in Hx. rewrite Ex, Z.eqb_refl in Hx. discriminate.
+Qed.
+
+Lemma replace_used : forall rs r', map r_actor (replace_route rs r') = map r_actor rs.
+Proof.
+  intros rs r'. unfold replace_route. rewrite map_map. apply map_ext. intros x.
+  destruct (r_actor x =? r_actor r') eqn:E; [apply Z.eqb_eq in E; rewrite E|]; reflexivity.
+Qed.
+
+Lemma replace_In : forall rs r' x, In x (replace_route rs r') -> x = r' \/ (In x rs /\ r_actor x <> r_actor r').
+Proof.
+  intros rs r' x H. unfold replace_route in H. apply in_map_iff in H as (y & E & Hy).
+  destruct (r_actor y =? r_actor r') eqn:Ea.
+  - left. symmetry. exact E.
+  - right. subst x. split; [exact Hy|apply Z.eqb_neq; exact Ea].
+Qed.
+
+Lemma replace_In_other : forall rs r' x, In x rs -> r_actor x <> r_actor r' -> In x (replace_route rs r').
+Proof.
+  intros rs r' x H Hn. unfold replace_route. apply in_map_iff. exists x. split; [|exact H].
+  apply Z.eqb_neq in Hn. rewrite Hn. reflexivity.
+Qed.
+
+Lemma replace_In_new : forall rs r r', In r rs -> r_actor r = r_actor r' -> In r' (replace_route rs r').
+Proof.
+  intros rs r r' H E. unfold replace_route. apply in_map_iff. exists r. split; [|exact H]. rewrite E, Z.eqb_refl. reflexivity.
+Qed.
+
+Lemma actor_unique : forall rs x y, NoDup (map r_actor rs) -> In x rs -> In y rs -> r_actor x = r_actor y -> x = y.
+Proof.
+  induction rs as [|z rs IH]; intros x y Hnd Hx Hy E; [destruct Hx|].
+  cbn in Hnd. inversion Hnd as [|? ? Hni Hnd']; subst.
+  destruct Hx as [->|Hx], Hy as [->|Hy]; [reflexivity| | |apply IH; assumption].
+  - exfalso. apply Hni. rewrite E. apply in_map. exact Hy.
+  - exfalso. apply Hni. rewrite <- E. apply in_map. exact Hx.
+Qed.
+
+Lemma replace_id : forall rs r', ~ In (r_actor r') (map r_actor rs) -> replace_route rs r' = rs.
+Proof.
+  intros rs r' H. unfold replace_route. rewrite <- (map_id rs) at 2. apply map_ext_in. intros x Hx.
+  destruct (r_actor x =? r_actor r') eqn:E; [|reflexivity].
+  apply Z.eqb_eq in E. exfalso. apply H. rewrite <- E. apply in_map. exact Hx.
+Qed.
+
+Lemma replace_count : forall (q : rdump -> bool) rs r r',
+  NoDup (map r_actor rs) -> In r rs -> r_actor r' = r_actor r ->
+  (length (filter q (replace_route rs r')) + b2n (q r) = length (filter q rs) + b2n (q r'))%nat.
+Proof.
+  intros q rs r r'; induction rs as [|x rs IH]; intros Hnd Hin Ha; [destruct Hin|].
+  cbn [map] in Hnd. inversion Hnd as [|? ? Hni Hnd']; subst.
+  unfold replace_route. cbn [map filter]. fold (replace_route rs r').
+  destruct Hin as [->|Hin].
+  - rewrite Ha, Z.eqb_refl. rewrite replace_id by (rewrite Ha; exact Hni).
+    destruct (q r), (q r'); cbn; lia.
+  - destruct (r_actor x =? r_actor r') eqn:E.
+    + apply Z.eqb_eq in E. exfalso. apply Hni. rewrite E, Ha. apply in_map. exact Hin.
+    + specialize (IH Hnd' Hin Ha). destruct (q x); cbn [length]; lia.
+Qed.
+
+Lemma filter_all_false : forall A (q : A -> bool) l, (forall x, In x l -> q x = false) -> filter q l = [].
+Proof.
+  intros A q l; induction l as [|a l IH]; cbn; intros H; [reflexivity|].
+  rewrite (H a (or_introl eq_refl)). apply IH. intros x Hx. apply H. right. exact Hx.
+Qed.
+
+Lemma count_single : forall (q : rdump -> bool) rs r,
+  NoDup (map r_actor rs) -> In r rs -> (forall x, In x rs -> r_actor x <> r_actor r -> q x = false) ->
+  length (filter q rs) = b2n (q r).
+Proof.
+  intros q rs r; induction rs as [|x rs IH]; intros Hnd Hin Hq; [destruct Hin|].
+  cbn [map] in Hnd. inversion Hnd as [|? ? Hni Hnd']; subst. cbn [filter].
+  destruct Hin as [->|Hin].
+  - assert (E : filter q rs = []).
+    { apply filter_all_false. intros y Hy. apply Hq; [right; exact Hy|].
+      intros E. apply Hni. rewrite <- E. apply in_map. exact Hy. }
+    rewrite E. destruct (q r); reflexivity.
+  - assert (Ex : q x = false).
+    { apply Hq; [left; reflexivity|]. intros E. apply Hni. rewrite E. apply in_map. exact Hin. }
+    rewrite Ex. apply IH; [exact Hnd'|exact Hin|]. intros z Hz Hne. apply Hq; [right; exact Hz|exact Hne].
+Qed.
+
+Lemma mentioned_iff : forall d j, In j (mentioned d) <->
+  (exists x, In x (d_routes d) /\ In j (job_ids x)) \/ In j (d_required d) \/ In j (d_ignored d)
+  \/ In j (d_unassigned d) \/ In j (d_locked d).
+Proof. intros. unfold mentioned. rewrite !in_app_iff, in_flat_map. tauto. Qed.
+
+Lemma NoDup_snoc : forall (l : list Z) x, NoDup l -> ~ In x l -> NoDup (l ++ [x]).
+Proof.
+  induction l as [|a l IH]; intros x Hnd Hx; cbn.
+  - constructor; [intros []|constructor].
+  - inversion Hnd; subst. constructor.
+    + rewrite in_app_iff. cbn. intros [H|[H|[]]]; [contradiction|]. apply Hx. left. symmetry. exact H.
+    + apply IH; [assumption|]. intros H. apply Hx. right. exact H.
+Qed.
+
+Lemma filter_length_pos : forall A (q : A -> bool) l x, In x l -> q x = true -> (1 <= length (filter q l))%nat.
+Proof.
+  intros A q l; induction l as [|a l IH]; intros x Hx Hq; [destruct Hx|]. cbn [filter].
+  destruct Hx as [->|Hx]; [rewrite Hq; cbn; lia|].
+  destruct (q a); cbn [length]; [lia|]. apply (IH x); assumption.
+Qed.
+
+Lemma known_job : forall P j, known P j = true -> exists s, In s (pw_jobs P) /\ j_id s = j.
+Proof.
+  intros P j H. unfold known in H. destruct (find_job P j) as [s|] eqn:Es; [|discriminate].
+  unfold find_job in Es. apply find_some in Es as [Hs Eid]. apply Z.eqb_eq in Eid. exists s. auto.
+Qed.
+
+(* a job served by a tour is known and in no pending list *)
+Lemma served_facts : forall P d r j, Inv0 P d -> In r (d_routes d) -> In j (job_ids r) ->
+  known P j = true /\ ~ In j (d_required d) /\ ~ In j (d_unassigned d) /\ ~ In j (d_ignored d).
+Proof.
+  intros P d r j H Hr Hj.
+  assert (Hk : known P j = true). { apply (inv_known P d H). apply mentioned_iff. left. exists r. auto. }
+  split; [exact Hk|]. destruct (known_job P j Hk) as (s & Hs & Eid).
+  pose proof (inv_homes P d H s Hs) as Hh. rewrite Eid in Hh. unfold homes in Hh.
+  pose proof (filter_length_pos _ (fun r => serves r j) (d_routes d) r Hr (proj2 (serves_In r j) Hj)) as Hp.
+  repeat split; intros Hc; apply memz_In in Hc; rewrite Hc in Hh; cbn [b2n] in Hh; lia.
+Qed.
+
+(* a pending job is known, in exactly one of required / unassigned, and served by no tour *)
+Lemma pending_facts : forall P d j, Inv0 P d -> In j (d_required d) \/ In j (d_unassigned d) ->
+  known P j = true /\ (b2n (memz j (d_unassigned d)) + b2n (memz j (d_required d)) = 1)%nat /\
+  forall r, In r (d_routes d) -> ~ In j (job_ids r).
+Proof.
+  intros P d j H Hp.
+  assert (Hk : known P j = true). { apply (inv_known P d H). apply mentioned_iff. tauto. }
+  split; [exact Hk|]. destruct (known_job P j Hk) as (s & Hs & Eid).
+  pose proof (inv_homes P d H s Hs) as Hh. rewrite Eid in Hh. unfold homes in Hh.
+  assert (Hge : (1 <= b2n (memz j (d_unassigned d)) + b2n (memz j (d_required d)))%nat).
+  { destruct Hp as [Hp|Hp]; apply memz_In in Hp; rewrite Hp; cbn [b2n]; lia. }
+  split; [lia|]. intros r Hr Hj.
+  pose proof (filter_length_pos _ (fun r => serves r j) (d_routes d) r Hr (proj2 (serves_In r j) Hj)) as Hpos. lia.
+Qed.
+
+(* the tour of actor a is replaced by r'; job j0 is the only job whose home may change *)
+Lemma Inv0_replace : forall P d a r r' j0 req' una',
+  Inv0 P d ->
+  find_route d a = Some r -> r_actor r' = a -> RouteOK0 P r' ->
+  (forall k, k <> j0 -> (In k (job_ids r') <-> In k (job_ids r))) ->
+  (forall k, k <> j0 -> (In k req' <-> In k (d_required d))) ->
+  (forall k, k <> j0 -> (In k una' <-> In k (d_unassigned d))) ->
+  NoDup req' -> NoDup una' ->
+  (b2n (serves r' j0) + b2n (memz j0 una') + b2n (memz j0 req') =
+   b2n (serves r j0) + b2n (memz j0 (d_unassigned d)) + b2n (memz j0 (d_required d)))%nat ->
+  (In j0 (job_ids r') \/ In j0 req' \/ In j0 una' -> known P j0 = true) ->
+  (forall l, In l (pw_locks P) ->
+     filter (fun j => memz j (l_jobs l)) (job_ids r') = filter (fun j => memz j (l_jobs l)) (job_ids r)) ->
+  (forall g, In g (groups_of P) -> has_group P g r' = true ->
+     has_group P g r = true \/ forall x, In x (d_routes d) -> r_actor x <> a -> has_group P g x = false) ->
+  Inv0 P (mkDump (replace_route (d_routes d) r') req' (d_ignored d) una' (d_locked d) (d_avail d)).
+Proof.
+  intros P d a r r' j0 req' una' H Ef Ea Hok Hjobs Hreq Huna Hndr Hndu Hacc Hkn Hlk Hgr.
+  destruct (find_route_In _ _ _ Ef) as [Hin Era].
+  pose proof (proj1 (inv_actors P d H)) as Hnd. unfold used in Hnd.
+  assert (Eact : r_actor r' = r_actor r) by congruence.
+  constructor; cbn [d_routes d_required d_ignored d_unassigned d_locked d_avail].
+  - (* homes *)
+    intros s Hs. pose proof (inv_homes P d H s Hs) as Hh. unfold homes in *.
+    cbn [d_routes d_required d_ignored d_unassigned].
+    pose proof (replace_count (fun x => serves x (j_id s)) (d_routes d) r r' Hnd Hin Eact) as C. cbn beta in C.
+    destruct (Z.eq_dec (j_id s) j0) as [E|E].
+    + rewrite E in *. lia.
+    + assert (E1 : b2n (serves r' (j_id s)) = b2n (serves r (j_id s))).
+      { unfold serves. apply b2n_memz_ext. apply Hjobs. exact E. }
+      rewrite (b2n_memz_ext (j_id s) una' (d_unassigned d) (Huna _ E)).
+      rewrite (b2n_memz_ext (j_id s) req' (d_required d) (Hreq _ E)). lia.
+  - (* known *)
+    intros j Hj. apply mentioned_iff in Hj. cbn [d_routes d_required d_ignored d_unassigned d_locked] in Hj.
+    destruct (Z.eq_dec j j0) as [->|E].
+    + destruct Hj as [(x & Hx & Hjx)|[Hj|[Hj|[Hj|Hj]]]].
+      * apply replace_In in Hx as [->|[Hx _]]; [apply Hkn; tauto|].
+        apply (inv_known P d H). apply mentioned_iff. left. exists x. auto.
+      * apply Hkn. tauto.
+      * apply (inv_known P d H). apply mentioned_iff. tauto.
+      * apply Hkn. tauto.
+      * apply (inv_known P d H). apply mentioned_iff. tauto.
+    + apply (inv_known P d H). apply mentioned_iff.
+      destruct Hj as [(x & Hx & Hjx)|[Hj|[Hj|[Hj|Hj]]]].
+      * left. apply replace_In in Hx as [->|[Hx _]]; [exists r; split; [exact Hin|apply Hjobs; assumption]|exists x; auto].
+      * right; left. apply Hreq; assumption.
+      * tauto.
+      * right; right; right; left. apply Huna; assumption.
+      * tauto.
+  - destruct (inv_pending P d H) as (_ & Hi & _). auto.
+  - unfold used. cbn [d_routes]. rewrite replace_used. exact (inv_actors P d H).
+  - unfold used. cbn [d_routes]. rewrite replace_used. exact (inv_registry P d H).
+  - intros x Hx. apply replace_In in Hx as [->|[Hx _]]; [exact Hok|apply (inv_routes P d H); exact Hx].
+  - (* groups *)
+    intros g Hg. pose proof (inv_groups P d H g Hg) as Hgo. unfold group_ok in *. cbn [d_routes].
+    apply Nat.leb_le in Hgo. apply Nat.leb_le.
+    pose proof (replace_count (has_group P g) (d_routes d) r r' Hnd Hin Eact) as C.
+    destruct (has_group P g r') eqn:Eg'; cbn [b2n] in C; [|lia].
+    destruct (Hgr g Hg Eg') as [Eg|Hoth].
+    + rewrite Eg in C. cbn [b2n] in C. lia.
+    + rewrite (count_single (has_group P g) (d_routes d) r Hnd Hin) in C.
+      * destruct (has_group P g r); cbn [b2n] in C; lia.
+      * intros x Hx Hne. apply Hoth; [exact Hx|congruence].
+  - (* locks *)
+    intros l Hl. pose proof (inv_locks P d H l Hl) as Hlo. unfold lock_ok in *. cbn [d_routes d_locked].
+    apply andb_true_iff in Hlo as [Hl1 Hl2]. apply andb_true_iff. split; [exact Hl1|].
+    apply existsb_exists in Hl2 as (x & Hx & Hxx). apply existsb_exists.
+    destruct (Z.eq_dec (r_actor x) a) as [Exa|Exa].
+    + assert (x = r) as -> by (apply (actor_unique (d_routes d)); [exact Hnd|exact Hx|exact Hin|congruence]).
+      exists r'. split; [apply (replace_In_new _ r); [exact Hin|congruence]|].
+      rewrite (Hlk l Hl). rewrite Ea, <- Era. exact Hxx.
+    + exists x. split; [apply replace_In_other; [exact Hx|congruence]|exact Hxx].
+Qed.
+
+(* ---------------- PRemove ---------------- *)
+Lemma lock_jobs_locked : forall P d l j, Inv0 P d -> In l (pw_locks P) -> In j (l_jobs l) -> In j (d_locked d).
+Proof.
+  intros P d l j H Hl Hj. pose proof (inv_locks P d H l Hl) as Hlo. unfold lock_ok in Hlo.
+  apply andb_true_iff in Hlo as [Hl1 _]. rewrite forallb_forall in Hl1. apply memz_In. apply Hl1. exact Hj.
+Qed.
+
+Lemma has_group_incl : forall P g r r', incl (job_ids r') (job_ids r) -> has_group P g r' = true -> has_group P g r = true.
+Proof.
+  intros P g r r' Hi H. unfold has_group in *. apply existsb_exists in H as (j & Hj & E). apply existsb_exists.
+  exists j. split; [apply Hi; exact Hj|exact E].
+Qed.
+
+Lemma inv0_remove : forall P d a j tu d',
+  triangle (pdur P) -> Inv0 P d -> step P (PRemove a j tu) d = Some d' -> Inv0 P d'.
+Proof.
+  intros P d a j tu d' Htri H Hs. cbn [step] in Hs.
+  destruct (find_route d a) as [r|] eqn:Ef; [|discriminate].
+  destruct (serves r j && negb (memz j (d_locked d))) eqn:Eg; [|discriminate].
+  inversion Hs; subst d'; clear Hs.
+  apply andb_true_iff in Eg as [Es El]. apply serves_In in Es. apply negb_true_iff in El. apply memz_false in El.
+  destruct (find_route_In _ _ _ Ef) as [Hin Era].
+  destruct (served_facts P d r j H Hin Es) as (Hk & Hnr & Hnu & Hni).
+  destruct (inv_pending P d H) as (Hndr & _ & Hndu).
+  set (r' := mkRoute a (remove_job_acts j (r_acts r))).
+  assert (Hids : job_ids r' = removez j (job_ids r)) by apply job_ids_remove.
+  assert (Hok : RouteOK0 P r').
+  { unfold r'. rewrite <- Era. apply routeok_remove; [exact Htri|apply (inv_routes P d H); exact Hin|exact Es]. }
+  assert (Hs' : serves r' j = false).
+  { apply memz_false. rewrite Hids. intros Hc. apply In_removez in Hc. tauto. }
+  assert (Hs0 : serves r j = true) by (apply serves_In; exact Es).
+  apply (Inv0_replace P d a r r' j); try assumption; try reflexivity.
+  - intros k Hkj. rewrite Hids, In_removez. tauto.
+  - intros k Hkj. destruct tu; [tauto|]. rewrite in_app_iff. cbn. intuition congruence.
+  - intros k Hkj. destruct tu; [|tauto]. rewrite in_app_iff. cbn. intuition congruence.
+  - destruct tu; [exact Hndr|apply NoDup_snoc; assumption].
+  - destruct tu; [apply NoDup_snoc; assumption|exact Hndu].
+  - rewrite Hs', Hs0. rewrite (b2n_memz_notin j _ Hnu), (b2n_memz_notin j _ Hnr).
+    destruct tu.
+    + rewrite (b2n_memz_In j (d_unassigned d ++ [j])) by (apply in_app_iff; right; left; reflexivity).
+      rewrite (b2n_memz_notin j _ Hnr). reflexivity.
+    + rewrite (b2n_memz_In j (d_required d ++ [j])) by (apply in_app_iff; right; left; reflexivity).
+      rewrite (b2n_memz_notin j _ Hnu). reflexivity.
+  - intros _. exact Hk.
+  - intros l Hl. rewrite Hids. unfold removez. apply filter_filter_sub. intros x Hx.
+    apply memz_In in Hx. apply negb_true_iff. apply Z.eqb_neq. intros ->.
+    apply El. apply (lock_jobs_locked P d l); assumption.
+  - intros g Hg Hg'. left. apply (has_group_incl P g r r'); [|exact Hg'].
+    intros k Hkk. rewrite Hids in Hkk. apply In_removez in Hkk. tauto.
+Qed.
+
+(* ---------------- pending lists only: PFail, PFinalize ---------------- *)
+Lemma Inv0_pending : forall P d req' una',
+  Inv0 P d -> NoDup req' -> NoDup una' ->
+  (forall s, In s (pw_jobs P) ->
+     (b2n (memz (j_id s) una') + b2n (memz (j_id s) req') =
+      b2n (memz (j_id s) (d_unassigned d)) + b2n (memz (j_id s) (d_required d)))%nat) ->
+  (forall k, In k req' \/ In k una' -> In k (d_required d) \/ In k (d_unassigned d)) ->
+  Inv0 P (mkDump (d_routes d) req' (d_ignored d) una' (d_locked d) (d_avail d)).
+Proof.
+  intros P d req' una' H Hr Hu Hsum Hsub.
+  constructor; cbn [d_routes d_required d_ignored d_unassigned d_locked d_avail].
+  - intros s Hs. pose proof (inv_homes P d H s Hs) as Hh. unfold homes in *.
+    cbn [d_routes d_required d_ignored d_unassigned]. specialize (Hsum s Hs). lia.
+  - intros j Hj. apply (inv_known P d H). apply mentioned_iff. apply mentioned_iff in Hj.
+    cbn [d_routes d_required d_ignored d_unassigned d_locked] in Hj.
+    destruct Hj as [Hj|[Hj|[Hj|[Hj|Hj]]]]; try tauto.
+    + destruct (Hsub j (or_introl Hj)); tauto.
+    + destruct (Hsub j (or_intror Hj)); tauto.
+  - destruct (inv_pending P d H) as (_ & Hi & _). auto.
+  - exact (inv_actors P d H).
+  - exact (inv_registry P d H).
+  - exact (inv_routes P d H).
+  - exact (inv_groups P d H).
+  - exact (inv_locks P d H).
+Qed.
+
+Lemma NoDup_filter' : forall (p : Z -> bool) l, NoDup l -> NoDup (filter p l).
+Proof.
+  intros p l H; induction H as [|x l Hx Hnd IH]; cbn; [constructor|].
+  destruct (p x); [constructor; [|exact IH]|exact IH]. intros Hc. apply filter_In in Hc. tauto.
+Qed.
+
+Lemma NoDup_app' : forall (l1 l2 : list Z), NoDup l1 -> NoDup l2 -> (forall x, In x l1 -> ~ In x l2) -> NoDup (l1 ++ l2).
+Proof.
+  induction l1 as [|a l1 IH]; intros l2 H1 H2 Hd; cbn; [exact H2|].
+  inversion H1; subst. constructor.
+  - rewrite in_app_iff. intros [Hc|Hc]; [contradiction|]. apply (Hd a); [left; reflexivity|exact Hc].
+  - apply IH; [assumption|assumption|]. intros x Hx. apply Hd. right. exact Hx.
+Qed.
+
+Lemma homes_exclusive : forall P d s, Inv0 P d -> In s (pw_jobs P) ->
+  (b2n (memz (j_id s) (d_unassigned d)) + b2n (memz (j_id s) (d_required d)) <= 1)%nat.
+Proof. intros P d s H Hs. pose proof (inv_homes P d H s Hs) as Hh. unfold homes in Hh. lia. Qed.
+
+Lemma inv0_fail : forall P d j d', Inv0 P d -> step P (PFail j) d = Some d' -> Inv0 P d'.
+Proof.
+  intros P d j d' H Hs. cbn [step] in Hs.
+  destruct (memz j (d_required d) && negb (memz j (d_unassigned d))) eqn:Eg; [|discriminate].
+  inversion Hs; subst d'; clear Hs. apply andb_true_iff in Eg as [Er Eu].
+  apply memz_In in Er. apply negb_true_iff in Eu. apply memz_false in Eu.
+  destruct (inv_pending P d H) as (Hndr & _ & Hndu).
+  apply Inv0_pending; [exact H|apply NoDup_filter'; exact Hndr|apply NoDup_snoc; assumption| |].
+  - intros s Hs. destruct (Z.eq_dec (j_id s) j) as [E|E].
+    + rewrite E. rewrite (b2n_memz_In j (d_unassigned d ++ [j])) by (apply in_app_iff; right; left; reflexivity).
+      rewrite (b2n_memz_notin j (removez j (d_required d))) by (intros Hc; apply In_removez in Hc; tauto).
+      rewrite (b2n_memz_notin j _ Eu), (b2n_memz_In j _ Er). reflexivity.
+    + rewrite (b2n_memz_ext (j_id s) (d_unassigned d ++ [j]) (d_unassigned d))
+        by (rewrite in_app_iff; cbn; intuition congruence).
+      rewrite (b2n_memz_ext (j_id s) (removez j (d_required d)) (d_required d))
+        by (rewrite In_removez; tauto).
+      reflexivity.
+  - intros k [Hk|Hk]; [apply In_removez in Hk; tauto|]. apply in_app_iff in Hk as [Hk|[<-|[]]]; tauto.
+Qed.
+
+Lemma inv0_finalize : forall P d d', Inv0 P d -> step P PFinalize d = Some d' -> Inv0 P d'.
+Proof.
+  intros P d d' H Hs. cbn [step] in Hs. inversion Hs; subst d'; clear Hs.
+  destruct (inv_pending P d H) as (Hndr & _ & Hndu).
+  apply Inv0_pending; [exact H|constructor| | |].
+  - apply NoDup_app'; [exact Hndu|apply NoDup_filter'; exact Hndr|].
+    intros x Hx Hc. apply filter_In in Hc as [_ Hc]. apply negb_true_iff in Hc. apply memz_false in Hc. contradiction.
+  - intros s Hs. pose proof (homes_exclusive P d s H Hs) as Hex. change (b2n (memz (j_id s) [])) with 0%nat.
+    destruct (memz (j_id s) (d_unassigned d)) eqn:Eu.
+    + rewrite (b2n_memz_In (j_id s) (d_unassigned d ++ _)) by (apply in_app_iff; left; apply memz_In; exact Eu).
+      cbn [b2n] in *. lia.
+    + destruct (memz (j_id s) (d_required d)) eqn:Er.
+      * rewrite (b2n_memz_In (j_id s) (d_unassigned d ++ _)); [reflexivity|].
+        apply in_app_iff. right. apply filter_In. split; [apply memz_In; exact Er|rewrite Eu; reflexivity].
+      * rewrite (b2n_memz_notin (j_id s) (d_unassigned d ++ _)); [reflexivity|].
+        rewrite in_app_iff. intros [Hc|Hc]; [apply memz_In in Hc; congruence|].
+        apply filter_In in Hc as [Hc _]. apply memz_In in Hc. congruence.
+  - intros k [[]|Hk]. apply in_app_iff in Hk as [Hk|Hk]; [tauto|]. apply filter_In in Hk. tauto.
+Qed.
+
+(* ---------------- PDeparture ---------------- *)
+Lemma job_ids_departure : forall a acts dep, job_ids (mkRoute a (set_departure acts dep)) = job_ids (mkRoute a acts).
+Proof. intros a [|[s k] rest] dep; reflexivity. Qed.
+
+Lemma inv0_departure : forall P d a dep d', Inv0 P d -> step P (PDeparture a dep) d = Some d' -> Inv0 P d'.
+Proof.
+  intros P d a dep d' H Hs. cbn [step] in Hs.
+  destruct (find_route d a) as [r|] eqn:Ef; [|discriminate].
+  destruct (route_ok P (mkRoute a (set_departure (r_acts r) dep))) eqn:Eok; [|discriminate].
+  inversion Hs; subst d'; clear Hs. apply route_ok_spec in Eok.
+  destruct (inv_pending P d H) as (Hndr & _ & Hndu).
+  assert (Hids : job_ids (mkRoute a (set_departure (r_acts r) dep)) = job_ids r).
+  { rewrite job_ids_departure. reflexivity. }
+  apply (Inv0_replace P d a r _ 0); try assumption; try reflexivity; try tauto.
+  - intros k _. rewrite Hids. tauto.
+  - unfold serves. rewrite Hids. reflexivity.
+  - intros Hc. apply (inv_known P d H). apply mentioned_iff. rewrite Hids in Hc.
+    destruct (find_route_In _ _ _ Ef) as [Hin _]. destruct Hc as [Hc|[Hc|Hc]]; [left; exists r; auto|tauto|tauto].
+  - intros l _. rewrite Hids. reflexivity.
+  - intros g _ Hg. left. unfold has_group in *. rewrite Hids in Hg. exact Hg.
+Qed.
+
+(* ---------------- PDropEmpty ---------------- *)
+Definition locks_nonempty (P : pworld) : Prop := forall l, In l (pw_locks P) -> l_jobs l <> [].
+
+Lemma serves_nonempty : forall r k, serves r k = true -> nonempty r = true.
+Proof. intros r k H. apply serves_In in H. unfold nonempty. destruct (job_ids r); [destruct H|reflexivity]. Qed.
+Lemma has_group_nonempty : forall P g r, has_group P g r = true -> nonempty r = true.
+Proof.
+  intros P g r H. unfold has_group in H. apply existsb_exists in H as (j & Hj & _).
+  unfold nonempty. destruct (job_ids r); [destruct Hj|reflexivity].
+Qed.
+
+Lemma NoDup_map_filter : forall (p : rdump -> bool) rs, NoDup (map r_actor rs) -> NoDup (map r_actor (filter p rs)).
+Proof.
+  intros p rs; induction rs as [|x rs IH]; cbn; intros H; [constructor|]. inversion H as [|? ? Hni Hnd]; subst.
+  destruct (p x); cbn; [constructor; [|apply IH; exact Hnd]|apply IH; exact Hnd].
+  intros Hc. apply Hni. apply in_map_iff in Hc as (y & Ey & Hy). apply filter_In in Hy as [Hy _].
+  rewrite <- Ey. apply in_map. exact Hy.
+Qed.
+
+Lemma inv0_dropempty : forall P d d', locks_nonempty P -> Inv0 P d -> step P PDropEmpty d = Some d' -> Inv0 P d'.
+Proof.
+  intros P d d' Hlne H Hs. cbn [step] in Hs. inversion Hs; subst d'; clear Hs.
+  pose proof (proj1 (inv_actors P d H)) as Hnd. unfold used in Hnd.
+  constructor; cbn [d_routes d_required d_ignored d_unassigned d_locked d_avail].
+  - intros s Hs. pose proof (inv_homes P d H s Hs) as Hh. unfold homes in *.
+    cbn [d_routes d_required d_ignored d_unassigned].
+    rewrite (filter_filter_sub _ (fun r => serves r (j_id s)) nonempty); [exact Hh|].
+    intros x Hx. apply (serves_nonempty x (j_id s)). exact Hx.
+  - intros j Hj. apply (inv_known P d H). apply mentioned_iff. apply mentioned_iff in Hj.
+    cbn [d_routes d_required d_ignored d_unassigned d_locked] in Hj.
+    destruct Hj as [(x & Hx & Hjx)|Hj]; [|tauto]. left. exists x. apply filter_In in Hx. tauto.
+  - exact (inv_pending P d H).
+  - unfold used. cbn [d_routes d_avail]. split; [apply NoDup_map_filter; exact Hnd|].
+    intros a Ha. apply (proj2 (inv_actors P d H)). rewrite !in_app_iff in *. unfold used.
+    destruct Ha as [Ha|[Ha|Ha]]; [left|left|right; exact Ha];
+      apply in_map_iff in Ha as (x & <- & Hx); apply filter_In in Hx as [Hx _]; apply in_map; exact Hx.
+  - intros v Hv. pose proof (inv_registry P d H v Hv) as Hr. unfold used in *. cbn [d_routes d_avail].
+    rewrite in_app_iff. split.
+    + intros [Hd|Ha] Hc.
+      * apply in_map_iff in Hd as (x & Ex & Hx). apply in_map_iff in Hc as (y & Ey & Hy).
+        apply filter_In in Hx as [Hx Hxe]. apply filter_In in Hy as [Hy Hye].
+        assert (x = y) by (apply (actor_unique (d_routes d)); [exact Hnd|exact Hx|exact Hy|congruence]).
+        subst y. rewrite Hye in Hxe. discriminate.
+      * apply Hr in Ha. apply Ha. apply in_map_iff in Hc as (y & Ey & Hy). apply filter_In in Hy as [Hy _].
+        rewrite <- Ey. apply in_map. exact Hy.
+    + intros Hn. destruct (in_dec Z.eq_dec (vs_id v) (map r_actor (d_routes d))) as [Hi|Hi].
+      * left. apply in_map_iff in Hi as (x & Ex & Hx). apply in_map_iff. exists x. split; [exact Ex|].
+        apply filter_In. split; [exact Hx|]. destruct (nonempty x) eqn:En; [|reflexivity].
+        exfalso. apply Hn. apply in_map_iff. exists x. split; [exact Ex|apply filter_In; auto].
+      * right. apply Hr. exact Hi.
+  - intros x Hx. apply filter_In in Hx as [Hx _]. apply (inv_routes P d H). exact Hx.
+  - intros g Hg. pose proof (inv_groups P d H g Hg) as Hgo. unfold group_ok in *. cbn [d_routes].
+    rewrite (filter_filter_sub _ (has_group P g) nonempty); [exact Hgo|]. apply has_group_nonempty.
+  - intros l Hl. pose proof (inv_locks P d H l Hl) as Hlo. unfold lock_ok in *. cbn [d_routes d_locked].
+    apply andb_true_iff in Hlo as [Hl1 Hl2]. apply andb_true_iff. split; [exact Hl1|].
+    apply existsb_exists in Hl2 as (x & Hx & Hxx). apply existsb_exists. exists x. split; [|exact Hxx].
+    apply filter_In. split; [exact Hx|]. apply andb_true_iff in Hxx as [_ Hxx]. unfold list_eqb in Hxx.
+    destruct (list_eq_dec Z.eq_dec _ _) as [E|E]; [|discriminate].
+    unfold nonempty. destruct (job_ids x) eqn:Ej; [|reflexivity]. cbn in E. exfalso. apply (Hlne l Hl). symmetry. exact E.
+Qed.
+
+(* ---------------- PInsert ---------------- *)
+Lemma In_insert_steps : forall steps acts x, In x (insert_steps acts steps) <-> In x acts \/ In x (map snd steps).
+Proof.
+  induction steps as [|[idx a] steps IH]; intros acts x; cbn [insert_steps map]; [cbn; tauto|].
+  rewrite IH, in_app_iff. cbn [In snd].
+  pose proof (firstn_skipn (S idx) acts) as E. rewrite <- E at 3. rewrite in_app_iff. tauto.
+Qed.
+
+Lemma In_job_ids : forall r k, In k (job_ids r) <-> 0 <= k /\ exists x, In x (r_acts r) /\ a_job (fst x) = k.
+Proof.
+  intros r k. unfold job_ids, tour_of. rewrite filter_In, map_map, in_map_iff. split.
+  - intros [(x & E & Hx) Hk]. split; [lia|exists x; auto].
+  - intros [Hk (x & Hx & E)]. split; [exists x; auto|lia].
+Qed.
+
+(* inserting activities whose job fails p does not change the p-part of the job sequence *)
+Lemma filter_jobs_insert : forall (p : Z -> bool) a steps acts,
+  (forall s, In s steps -> p (a_job (fst (snd s))) = false) ->
+  filter p (job_ids (mkRoute a (insert_steps acts steps))) = filter p (job_ids (mkRoute a acts)).
+Proof.
+  intros p a steps; induction steps as [|[idx x] steps IH]; intros acts Hp; cbn [insert_steps]; [reflexivity|].
+  rewrite IH by (intros s Hs; apply Hp; right; exact Hs).
+  unfold job_ids, tour_of. cbn [r_acts].
+  rewrite <- (firstn_skipn (S idx) acts) at 3.
+  rewrite !map_app, !filter_app. cbn [map filter]. f_equal.
+  specialize (Hp (idx, x) (or_introl eq_refl)). cbn [snd] in Hp.
+  destruct (0 <=? a_job (fst x)); cbn [filter]; [rewrite Hp|]; reflexivity.
+Qed.
+
+Lemma lock_jobs_served : forall P d l j, Inv0 P d -> In l (pw_locks P) -> In j (l_jobs l) ->
+  exists r, In r (d_routes d) /\ In j (job_ids r).
+Proof.
+  intros P d l j H Hl Hj. pose proof (inv_locks P d H l Hl) as Hlo. unfold lock_ok in Hlo.
+  apply andb_true_iff in Hlo as [_ Hl2]. apply existsb_exists in Hl2 as (x & Hx & Hxx).
+  apply andb_true_iff in Hxx as [_ Hxx]. unfold list_eqb in Hxx.
+  destruct (list_eq_dec Z.eq_dec _ _) as [E|E]; [|discriminate].
+  exists x. split; [exact Hx|]. rewrite <- E in Hj. apply filter_In in Hj. tauto.
+Qed.
+
+Lemma groups_of_nonzero : forall P g, In g (groups_of P) -> g <> 0.
+Proof. intros P g H. unfold groups_of in H. apply filter_In in H as [_ H]. apply negb_true_iff in H. apply Z.eqb_neq. exact H. Qed.
+
+Lemma inv0_insert : forall P d a j steps d', Inv0 P d -> step P (PInsert a j steps) d = Some d' -> Inv0 P d'.
+Proof.
+  intros P d a j steps d' H Hs. cbn [step] in Hs.
+  destruct ((memz j (d_required d) || memz j (d_unassigned d)) && forallb (fun s => a_job (fst (snd s)) =? j) steps
+            && group_free P d a j) eqn:Eg; [|discriminate].
+  apply andb_true_iff in Eg as [Eg Egf]. apply andb_true_iff in Eg as [Epend Esteps].
+  assert (Hpend : In j (d_required d) \/ In j (d_unassigned d)).
+  { apply orb_true_iff in Epend as [E|E]; apply memz_In in E; tauto. }
+  destruct (pending_facts P d j H Hpend) as (Hk & Hone & Hnot).
+  rewrite forallb_forall in Esteps.
+  destruct (inv_pending P d H) as (Hndr & _ & Hndu).
+  assert (Hnl : forall l, In l (pw_locks P) -> ~ In j (l_jobs l)).
+  { intros l Hl Hc. destruct (lock_jobs_served P d l j H Hl Hc) as (x & Hx & Hjx). exact (Hnot x Hx Hjx). }
+  assert (Hnr : ~ In j (removez j (d_required d))) by (intros Hc; apply In_removez in Hc; tauto).
+  assert (Hnu : ~ In j (removez j (d_unassigned d))) by (intros Hc; apply In_removez in Hc; tauto).
+  assert (Hjobs : forall acts k, k <> j ->
+            (In k (job_ids (mkRoute a (insert_steps acts steps))) <-> In k (job_ids (mkRoute a acts)))).
+  { intros acts k Hkj. rewrite !In_job_ids. cbn [r_acts]. split; intros [Hk0 (x & Hx & E)]; (split; [exact Hk0|]).
+    - apply In_insert_steps in Hx as [Hx|Hx]; [exists x; auto|].
+      apply in_map_iff in Hx as (s & <- & Hs). specialize (Esteps s Hs). apply Z.eqb_eq in Esteps. congruence.
+    - exists x. split; [apply In_insert_steps; left; exact Hx|exact E]. }
+  assert (Hlocks : forall acts l, In l (pw_locks P) ->
+            filter (fun k => memz k (l_jobs l)) (job_ids (mkRoute a (insert_steps acts steps))) =
+            filter (fun k => memz k (l_jobs l)) (job_ids (mkRoute a acts))).
+  { intros acts l Hl. apply filter_jobs_insert. intros s Hs. specialize (Esteps s Hs). apply Z.eqb_eq in Esteps.
+    rewrite Esteps. apply memz_false. apply Hnl. exact Hl. }
+  assert (Hgrp : forall acts g, In g (groups_of P) -> has_group P g (mkRoute a (insert_steps acts steps)) = true ->
+            has_group P g (mkRoute a acts) = true \/ forall x, In x (d_routes d) -> r_actor x <> a -> has_group P g x = false).
+  { intros acts g Hg Hg'. unfold has_group in Hg'. apply existsb_exists in Hg' as (k & Hkk & Ek).
+    destruct (Z.eq_dec k j) as [->|Hkj].
+    - right. intros x Hx Hxa. unfold group_free in Egf. apply Z.eqb_eq in Ek. rewrite Ek in Egf.
+      apply orb_true_iff in Egf as [E0|E0]; [apply Z.eqb_eq in E0; exfalso; apply (groups_of_nonzero P g Hg); exact E0|].
+      apply negb_true_iff in E0. destruct (has_group P g x) eqn:Ex; [|reflexivity].
+      assert (existsb (has_group P g) (others d a) = true); [|congruence].
+      apply existsb_exists. exists x. split; [|exact Ex]. unfold others. apply filter_In. split; [exact Hx|].
+      apply negb_true_iff. apply Z.eqb_neq. exact Hxa.
+    - left. unfold has_group. apply existsb_exists. exists k. split; [apply Hjobs; assumption|exact Ek]. }
+  destruct (find_route d a) as [r|] eqn:Ef.
+  - (* the tour exists *)
+    destruct (route_ok P (mkRoute a (insert_steps (r_acts r) steps)) && serves (mkRoute a (insert_steps (r_acts r) steps)) j) eqn:Eok;
+      [|discriminate].
+    inversion Hs; subst d'; clear Hs. apply andb_true_iff in Eok as [Eok Eserves]. apply route_ok_spec in Eok.
+    destruct (find_route_In _ _ _ Ef) as [Hin Era].
+    apply (Inv0_replace P d a r _ j); try assumption; try reflexivity.
+    + intros k Hkj. apply Hjobs. exact Hkj.
+    + intros k Hkj. rewrite In_removez. tauto.
+    + intros k Hkj. rewrite In_removez. tauto.
+    + apply NoDup_filter'. exact Hndr.
+    + apply NoDup_filter'. exact Hndu.
+    + rewrite Eserves. rewrite (b2n_memz_notin j _ Hnr), (b2n_memz_notin j _ Hnu).
+      assert (Es0 : serves r j = false) by (apply memz_false; apply Hnot; exact Hin). rewrite Es0. cbn [b2n]. lia.
+    + intros _. exact Hk.
+    + intros l Hl. apply (Hlocks (r_acts r) l Hl).
+    + intros g Hg Hg'. apply (Hgrp (r_acts r) g Hg Hg').
+  - (* a new tour for an available actor *)
+    destruct (find_vs P a) as [vs|] eqn:Evs; [|discriminate].
+    set (r' := mkRoute a (insert_steps (r_acts (new_route vs)) steps)) in *.
+    destruct (memz a (d_avail d) && route_ok P r' && serves r' j) eqn:Eok; [|discriminate].
+    inversion Hs; subst d'; clear Hs. apply andb_true_iff in Eok as [Eok Eserves]. apply andb_true_iff in Eok as [Eav Eok].
+    apply route_ok_spec in Eok. apply memz_In in Eav.
+    pose proof (find_route_none d a Ef) as Hna.
+    assert (Honly : forall k, In k (job_ids r') -> k = j).
+    { intros k Hkk. destruct (Z.eq_dec k j) as [|Hkj]; [assumption|]. exfalso.
+      apply (Hjobs (r_acts (new_route vs)) k Hkj) in Hkk. apply In_job_ids in Hkk as [Hk0 (x & Hx & E)].
+      unfold new_route in Hx. cbn [r_acts] in Hx. destruct (vs_end vs); cbn in Hx;
+        repeat (destruct Hx as [Hx|Hx]; [subst x; cbn in E; lia|]); destruct Hx. }
+    constructor; cbn [d_routes d_required d_ignored d_unassigned d_locked d_avail].
+    + intros s Hs. pose proof (inv_homes P d H s Hs) as Hh. unfold homes in *.
+      cbn [d_routes d_required d_ignored d_unassigned]. rewrite filter_app, app_length. cbn [filter].
+      destruct (Z.eq_dec (j_id s) j) as [E|E].
+      * rewrite E in *. rewrite Eserves. cbn [length]. rewrite (b2n_memz_notin j _ Hnr), (b2n_memz_notin j _ Hnu).
+        assert (Ez : filter (fun r => serves r j) (d_routes d) = []).
+        { apply filter_all_false. intros x Hx. apply memz_false. apply Hnot. exact Hx. }
+        rewrite Ez in *. cbn [length] in *. lia.
+      * assert (Es : serves r' (j_id s) = false).
+        { apply memz_false. intros Hc. apply Honly in Hc. contradiction. }
+        rewrite Es. cbn [length].
+        rewrite (b2n_memz_ext (j_id s) (removez j (d_unassigned d)) (d_unassigned d)) by (rewrite In_removez; tauto).
+        rewrite (b2n_memz_ext (j_id s) (removez j (d_required d)) (d_required d)) by (rewrite In_removez; tauto). lia.
+    + intros k Hkk. apply mentioned_iff in Hkk. cbn [d_routes d_required d_ignored d_unassigned d_locked] in Hkk.
+      destruct Hkk as [(x & Hx & Hjx)|[Hkk|[Hkk|[Hkk|Hkk]]]].
+      * apply in_app_iff in Hx as [Hx|[<-|[]]]; [|rewrite (Honly k Hjx); exact Hk].
+        apply (inv_known P d H). apply mentioned_iff. left. exists x. auto.
+      * apply In_removez in Hkk. apply (inv_known P d H). apply mentioned_iff. tauto.
+      * apply (inv_known P d H). apply mentioned_iff. tauto.
+      * apply In_removez in Hkk. apply (inv_known P d H). apply mentioned_iff. tauto.
+      * apply (inv_known P d H). apply mentioned_iff. tauto.
+    + destruct (inv_pending P d H) as (_ & Hi & _). split; [apply NoDup_filter'; exact Hndr|].
+      split; [exact Hi|apply NoDup_filter'; exact Hndu].
+    + destruct (inv_actors P d H) as [Hnd Hkn]. unfold used in *. cbn [d_routes d_avail]. rewrite map_app. cbn [map r_actor].
+      split; [apply NoDup_snoc; assumption|].
+      intros b Hb. rewrite !in_app_iff in Hb. cbn [In] in Hb.
+      destruct Hb as [[Hb|[<-|[]]]|Hb].
+      * apply Hkn. apply in_app_iff. left. exact Hb.
+      * unfold actor_known. rewrite Evs. reflexivity.
+      * apply In_removez in Hb. apply Hkn. apply in_app_iff. right. tauto.
+    + intros v Hv. pose proof (inv_registry P d H v Hv) as Hr. unfold used in *. cbn [d_routes d_avail].
+      rewrite map_app, in_app_iff, In_removez. cbn [map r_actor In].
+      destruct (Z.eq_dec (vs_id v) a) as [E|E]; [rewrite E in *; tauto|]. intuition congruence.
+    + intros x Hx. apply in_app_iff in Hx as [Hx|[<-|[]]]; [apply (inv_routes P d H); exact Hx|exact Eok].
+    + intros g Hg. pose proof (inv_groups P d H g Hg) as Hgo. unfold group_ok in *. cbn [d_routes].
+      apply Nat.leb_le in Hgo. apply Nat.leb_le. rewrite filter_app, app_length. cbn [filter].
+      destruct (has_group P g r') eqn:Eg'; cbn [length]; [|lia].
+      destruct (Hgrp (r_acts (new_route vs)) g Hg Eg') as [Hc|Hnone].
+      * exfalso. unfold has_group in Hc. apply existsb_exists in Hc as (k & Hkk & _).
+        apply In_job_ids in Hkk as [Hk0 (x & Hx & E)]. unfold new_route in Hx. cbn [r_acts] in Hx.
+        destruct (vs_end vs); cbn in Hx; repeat (destruct Hx as [Hx|Hx]; [subst x; cbn in E; lia|]); destruct Hx.
+      * rewrite (filter_all_false _ (has_group P g) (d_routes d)); [cbn; lia|].
+        intros x Hx. apply Hnone; [exact Hx|]. intros E. apply Hna. unfold used. rewrite <- E. apply in_map. exact Hx.
+    + intros l Hl. pose proof (inv_locks P d H l Hl) as Hlo. unfold lock_ok in *. cbn [d_routes d_locked].
+      apply andb_true_iff in Hlo as [Hl1 Hl2]. apply andb_true_iff. split; [exact Hl1|].
+      rewrite existsb_app. rewrite Hl2. reflexivity.
+Qed.
